@@ -156,6 +156,7 @@ structure TState where
   startCol : Option Nat := none
   endCol : Option Nat := none
   track : List Seg := []
+  deriving DecidableEq
 
 /-- `abs(dout - din) > col_tol`, decided on squares; `unstable` within 10⁻⁶ relative -/
 def longEnough (poly : Poly) (L2 tin tout : Rat) : Out Bool :=
@@ -225,6 +226,12 @@ def crossedLongB (g : Geo) (a b : Pt) (ci : Nat) : Bool :=
     decide (0 < maxSideSq (g.poly ci))
   | _ => false
 
+/-- exactly one crossing, inside the line (the start or end column, or a column touched at a point) -/
+def oneCrossB (g : Geo) (a b : Pt) (ci : Nat) : Bool :=
+  match crossings (g.poly ci) a b with
+  | [c] => decide (0 ≤ c.t) && decide (c.t ≤ 1)
+  | _ => false
+
 /-- no column contains both end points (the loop does not `break`) -/
 def notInOneB (g : Geo) (a b : Pt) : Bool :=
   (List.range g.ncols).all fun c => !(g.containsPoint c a && g.containsPoint c b)
@@ -240,7 +247,7 @@ def boxSymB (g : Geo) (a b : Pt) : Bool :=
 def cleanB (g : Geo) (a b : Pt) : Bool :=
   (List.range g.ncols).all fun ci =>
     !(lineIntersectsRectangle (g.bbox ci) a b == some true) ||
-      (crossings (g.poly ci) a b).isEmpty || crossedLongB g a b ci
+      (crossings (g.poly ci) a b).isEmpty || crossedLongB g a b ci || oneCrossB g a b ci
 
 def revHypB (g : Geo) (a b : Pt) : Bool :=
   notInOneB g a b && uniqueAtB g a && uniqueAtB g b && boxSymB g a b && cleanB g a b
@@ -250,13 +257,14 @@ def orderedB : Rat → List Seg → Bool
   | lo, [] => decide (lo ≤ 1)
   | lo, s :: r => decide (lo ≤ s.sin) && decide (s.sin ≤ s.sout) && orderedB s.sout r
 
-/-- counts for the evidence: columns passing the box test / of these: not crossed, crossed cleanly, other -/
-def trackHypCounts (g : Geo) (a b : Pt) : Nat × Nat × Nat × Nat :=
+/-- counts for the evidence: columns passing the box test; of these: not crossed, crossed twice far
+    enough apart (`crossedLongB`), crossed once inside the line (`oneCrossB`), anything else -/
+def trackHypCounts (g : Geo) (a b : Pt) : List Nat :=
   (List.range g.ncols).foldl (fun acc ci =>
     if lineIntersectsRectangle (g.bbox ci) a b == some true then
-      if (crossings (g.poly ci) a b).isEmpty then (acc.1 + 1, acc.2.1 + 1, acc.2.2.1, acc.2.2.2)
-      else if crossedLongB g a b ci then (acc.1 + 1, acc.2.1, acc.2.2.1 + 1, acc.2.2.2)
-      else (acc.1 + 1, acc.2.1, acc.2.2.1, acc.2.2.2 + 1)
-    else acc) (0, 0, 0, 0)
+      let k := if (crossings (g.poly ci) a b).isEmpty then 1
+               else if crossedLongB g a b ci then 2 else if oneCrossB g a b ci then 3 else 4
+      acc.mapIdx fun i v => if i = 0 || i = k then v + 1 else v
+    else acc) [0, 0, 0, 0, 0]
 
 end Model.Track
